@@ -366,6 +366,7 @@ def rule_guard_state_is_per_call(ctx, rep, rid: str, only: Set[str]) -> None:
             rep.ok(rid, key, {"note": "no closure guard container"})
             continue
         bad = None
+        leak = None
         for gname, (desc, holder) in guards.items():
             owner = None
             h = holder
@@ -385,6 +386,25 @@ def rule_guard_state_is_per_call(ctx, rep, rid: str, only: Set[str]) -> None:
                         removes_in_finally = True
             if not removes_in_finally:
                 bad = (gname, owner)
+                continue
+            # the finally only undoes what was added before its try was entered: a function that adds to the
+            # container and can still raise afterwards (the depth test placed after the add) leaks that entry
+            for hh in [f] + _local_helpers(ctx, f):
+                cfg = ctx.facts.cfg(hh)
+                adds = [nd for nd in cfg.nodes if nd.ast is not None and any(isinstance(c, ast.Call) and isinstance(c.func, ast.Attribute) and c.func.attr in ("add", "append") and norm(c.func.value) == gname for c in ast.walk(nd.ast))]
+                for ad in adds:
+                    # inside a try whose finally removes: covered
+                    tries = [x for x in hh.own_nodes() if isinstance(x, ast.Try) and x.finalbody and any(gname in norm(st) for st in x.finalbody) and any(ad.ast is y or any(ad.ast is z for z in ast.walk(y)) for y in x.body)]
+                    if tries:
+                        continue
+                    raises = [nd for nd in cfg.nodes if nd.ast is not None and isinstance(nd.ast, ast.Raise)]
+                    for r in raises:
+                        if r.id in cfg.reachable([ad.id], set(), None) and r.id != ad.id:
+                            leak = (gname, owner, hh, ad, r)
+        if leak:
+            gname, owner, hh, ad, r = leak
+            rep.bad(rid, key, f"{hh.qual} adds to the cycle-guard container `{gname}` (line {ad.line}), which lives in {owner.qual} and outlives the conversion, and can raise after that (line {r.line}) before any try/finally that removes the entry is entered: the refused container stays registered, so later conversions in the same context report acyclic values as circular and lose nesting budget", f"{hh.module.rel}:{r.line}")
+            continue
         if bad:
             rep.bad(rid, key, f"{f.qual} keeps its cycle-guard container `{bad[0]}` in {bad[1].qual}, which outlives a single conversion, and never removes entries in a finally block: after a conversion that throws (e.g. on a cycle) the entries stay and later acyclic values are rejected", f.loc)
         else:
